@@ -897,12 +897,19 @@ class BeartypeConf(object):
             except TypeError:
                 conf_cached = None
 
-            if (
-                conf_cached is not None and
-                tuple(map(type, conf_cached._conf_args)) == (
-                    tuple(map(type, conf_args)))
-            ):
-                return conf_cached
+            if conf_cached is not None:
+                conf_args_types = tuple(map(type, conf_args))
+
+                # Note that each configuration is cached under both the tuple
+                # of all parameters originally passed to this method *AND* the
+                # tuple of the values of its "kwargs" property. See below.
+                if (
+                    conf_args_types == tuple(map(
+                        type, conf_cached._conf_args)) or
+                    conf_args_types == tuple(map(
+                        type, conf_cached._conf_kwargs.values()))
+                ):
+                    return conf_cached
             # Else, this method has *NOT* yet instantiated a configuration with
             # these parameters. In this case, continue to do so and then cache
             # that configuration.
@@ -980,6 +987,16 @@ class BeartypeConf(object):
             # Cache this configuration with all relevant dictionary singletons
             # *BEFORE* possibly modifying the values of passed parameters below.
             _beartype_conf_args_to_conf[conf_args] = self
+
+            # Additionally cache this configuration under the equivalent tuple of
+            # all defaulted and sanified parameters (i.e., the values of the
+            # "kwargs" property of this configuration, whose order is that of
+            # the "conf_args" tuple), guaranteeing that
+            # "BeartypeConf(**conf.kwargs) is conf". Note that setdefault()
+            # rather than assignment preserves any equal configuration
+            # previously cached under this tuple.
+            _beartype_conf_args_to_conf.setdefault(
+                tuple(conf_kwargs.values()), self)
 
             # ..................{ CLASSIFY                   }..................
             # Classify all passed parameters that have now been possibly
